@@ -719,7 +719,7 @@ def run_c08(rep, rng, tier):
     meta = []
     for _ in range(n):
         d = gen_desc(rng, max_decls=6)
-        kind = rng.choice(["valid", "forward", "self", "undeclared", "othername", "valid"])
+        kind = rng.choice(["valid", "forward", "self", "undeclared", "othername", "valid", "latemod"])
         structs = [dc for dc in d.decls if dc["k"] == "struct"]
         wrap = lambda t: rng.choice([t, ("arr", t, 2), ("dyn", t), ("opt", t), ("opt", ("arr", ("dyn", t), 3))])
         bad_name = None
@@ -741,6 +741,9 @@ def run_c08(rep, rng, tier):
                                        base.upper(), base[0] + base[1:].swapcase()])
                     if cand not in taken and cand not in RESERVED and len(cand) >= 2 and cand != base:
                         bad_name = cand
+            elif kind == "latemod":
+                # a type that is declared in a module which the file imports only AFTER the use: not declared before its use
+                bad_name = "Late" + str(rng.randint(0, 99))
             elif kind == "forward":
                 later = [dc for dc in d.decls[d.decls.index(holder) + 1:] if dc["k"] in ("struct", "enum")]
                 if later:
@@ -784,7 +787,18 @@ def run_c08(rep, rng, tier):
                                         {"name": "ref", "id": 77, "type": wrap(("named", bad_name)), "params": []})
         text = render(rng, desc_toks(rng, d), rng.choice(["canon", "wild"]))
         job = {"files": {"main.fcp": text}, "root": "main.fcp", "from_string": rng.random() < 0.5}
-        if rng.random() < 0.3:
+        late = kind == "latemod" and bad_name is not None
+        if late:
+            ld = Desc()
+            ld.decls = [{"k": "enum", "name": bad_name, "items": [("LA", 0), ("LB", 2)]} if rng.random() < 0.5 else
+                        {"k": "struct", "name": bad_name, "fields": [{"name": "lz", "id": 0, "type": ("u", 8), "params": []}]}]
+            rootd = Desc()
+            at = rng.randint(d.decls.index(holder) + 1, len(d.decls))
+            rootd.decls = d.decls[:at] + [{"k": "mod", "path": ["late"]}] + d.decls[at:]
+            job = {"files": {"main.fcp": render(rng, desc_toks(rng, rootd), "canon"), "late.fcp": render(rng, desc_toks(rng, ld), "canon")},
+                   "root": "main.fcp", "from_string": False}
+            text = job["files"]["main.fcp"]
+        if not late and rng.random() < 0.3:
             # the same schema behind two module imports; the second module re-uses a type name of the first one for a
             # declaration of the OTHER kind and refers to it: both declarations must survive the merge, and the
             # references keep pointing at a declaration of their kind
@@ -845,8 +859,8 @@ def run_c08(rep, rng, tier):
     mres = run_driver_parallel(model_cases(jobs))
     for (kind, bad, holder), job, r, m in zip(meta, jobs, ires, mres):
         text = job["files"]["main.fcp"] if len(job["files"]) == 1 else json.dumps(job["files"], sort_keys=True)
-        rep.hist("layout", "single file" if len(job["files"]) == 1 else ("behind two module imports with a cross-kind name clash"
-                           if len(job["files"]) == 3 else "namesake modules in two directories, one reached through another module"))
+        rep.hist("layout", "single file" if len(job["files"]) == 1 else "module imported after the use" if len(job["files"]) == 2 else
+                 ("behind two module imports with a cross-kind name clash" if len(job["files"]) == 3 else "namesake modules in two directories, one reached through another module"))
         rep.count(text)
         rep.hist("reference_kind", kind)
         rep.hist("history", "after a primer schema with clashing names" if job.get("primer") else "fresh")
